@@ -47,6 +47,16 @@ pub fn gen_scenario(r: &mut Rng, big: bool) -> Scenario {
     if Rng::new(r.0 ^ 0x1f83_d9ab_fb41_bd6b).chance(1, 4) {
         args.push("--nopie".into());
     }
+    // an open file whose name is not UTF-8 (or not ASCII): its descriptor must be listed like any other
+    {
+        let mut r7 = Rng::new(r.0 ^ 0x2b3e_6c1f_1f83_d9ab);
+        if r7.chance(1, 4) {
+            let mut path = format!("{}/fd_", crate::live::run_dir("shared")).into_bytes();
+            path.extend_from_slice(*r7.pick(&[&b"\xff\xfe_file.bin"[..], &b"caf\xc3\xa9.dat"[..], &b"\xc3"[..], &b"a\xf0\x9f\x98\x80b"[..]]));
+            args.push("-f".into());
+            args.push(crate::rng::hex(&path));
+        }
+    }
     if r.chance(1, 2) {
         args.push("-F".into());
         args.push(r.below(40).to_string());
